@@ -70,6 +70,10 @@ def pipeD (op : String) (args : List Nat) : Option String :=
   | "bufdrop" => some <| match args with
       | [_, k, n] => ok [if n == 0 then k else min k n]
       | _ => reject
+  | "pipepanic2" => some <| match args with
+      -- the same verdict whatever ran in the process before
+      | [_, n, j] => if j < n then "ok exit 1" else "ok exit 0"
+      | _ => reject
   | "pipepanic" => some <| match args with
       | [_, n, j] => if j < n then "ok exit 1" else "ok exit 0"
       | _ => reject
